@@ -589,6 +589,55 @@ func (m c12Meta) class() int {
 	return 1
 }
 
+// c12CommittedWideDivMod: the value the COMMITTED folder gives "a / b" (code 3) or
+// "a % b" (code 4) at a declared width above 64 bits (known finding F6g):
+// mpa.Int.Div/Mod build circuits.NewIDivider on inputs as wide as the operands'
+// own containers (32 / 64 / BitLen, or the declared width for -T(x)), i.e. the
+// signed divider at width nn = max(container a, container b).  The finding key
+// records whether the folded value IS this value; any other wrong value at the
+// same site is a different defect and gets an unlisted key.  nil: not computed
+// (a negative operand written T(-x)).
+func c12CommittedWideDivMod(m c12Meta) *big.Int {
+	if (m.a.Sign() < 0 && m.fa == 1) || (m.b.Sign() < 0 && m.fb == 1) {
+		return nil
+	}
+	nn := c12Contv(m.n, m.a)
+	if x := c12Contv(m.n, m.b); x > nn {
+		nn = x
+	}
+	mod := c12Pow(nn)
+	half := c12Pow(nn - 1)
+	wire := func(v *big.Int) *big.Int { // the operand's container as an unsigned number
+		if v.Sign() < 0 {
+			return new(big.Int).Mod(new(big.Int).Add(c12Pow(m.n), v), mod)
+		}
+		return new(big.Int).Mod(v, mod)
+	}
+	x, y := wire(m.a), wire(m.b)
+	sx, sy := x.Cmp(half) >= 0, y.Cmp(half) >= 0
+	abs := func(v *big.Int, neg bool) *big.Int {
+		if !neg {
+			return v
+		}
+		return new(big.Int).Mod(new(big.Int).Sub(mod, v), mod)
+	}
+	ax, ay := abs(x, sx), abs(y, sy)
+	var q, r *big.Int
+	if ay.Sign() == 0 {
+		q, r = new(big.Int).Sub(mod, big.NewInt(1)), ax
+	} else {
+		q, r = new(big.Int).Quo(ax, ay), new(big.Int).Rem(ax, ay)
+	}
+	if m.code == 4 {
+		return r.Mod(r, mod)
+	}
+	q.Mod(q, mod)
+	if sx != sy {
+		q = new(big.Int).Mod(new(big.Int).Neg(q), mod)
+	}
+	return q
+}
+
 type c12Opnd struct {
 	v    *big.Int
 	form int
@@ -645,6 +694,9 @@ func runC12(c *Ctx) error {
 	extraConsumers := c.N(1, 4)
 	nPrograms := 0
 	nFolded, nNotFolded := 0, 0
+	// F6g discriminator of the current group (set by its as-is pair): does the folded
+	// wide div/mod value equal what the committed folder computes?
+	divDisc := ""
 
 	// one (constant variant, run-time variant) pair; classOf gets the run-time
 	// variant's output (nil when it did not produce one).
@@ -700,6 +752,23 @@ func runC12(c *Ctx) error {
 		}
 		rp := c12Replay{Seed: c.Seed, Const: srcC, Runtime: srcD, Inputs: ins, ConstGot: oc.String(), RuntimeGo: od.String()}
 		base := fmt.Sprintf("c12:%s:%s:%s:%s:%s:%s", opName, kName, opClass, path, wcls, cons)
+		wrongSym := ":wrong-value"
+		if (meta.code == 3 || meta.code == 4) && n > 64 {
+			if cons == "asis" {
+				if exp := c12CommittedWideDivMod(meta); exp != nil {
+					divDisc = "unlisted"
+					if oc.kind == 0 && oc.val.Cmp(new(big.Int).Mod(exp, c12Pow(n))) == 0 {
+						divDisc = "committed"
+					}
+				}
+			}
+			// "wrong-value" (the key F6g lists) now MEANS: the folded value is exactly
+			// the committed folder's container-width signed-divider value; any other
+			// wrong value at this site is unlisted
+			if divDisc == "unlisted" {
+				wrongSym = ":unlisted-wrong-value"
+			}
+		}
 		if inside {
 			// never matched by a known finding: a failure inside the proved class
 			// means the model (hence the theorem's object) and the compiler disagree
@@ -716,7 +785,7 @@ func runC12(c *Ctx) error {
 		case oc.kind == 1:
 			c.Fail(base+":compile-error", "constant variant is rejected ("+oc.text+") but the run-time variant computes "+od.val.String(), rp)
 		case oc.val.Cmp(od.val) != 0:
-			c.Fail(base+":wrong-value", "folded result "+oc.val.String()+" differs from the circuit's "+od.val.String(), rp)
+			c.Fail(base+wrongSym, "folded result "+oc.val.String()+" differs from the circuit's "+od.val.String(), rp)
 		}
 		return od
 	}
@@ -727,6 +796,7 @@ func runC12(c *Ctx) error {
 		kName := []string{"int", "uint", "bool"}[k]
 		var inner *big.Int
 		first := true
+		divDisc = ""
 		for _, cons := range consList {
 			pc, pd, rk, rn, ok := c12Consume(cons, k, n, isBool, ec, ed, cv)
 			if !ok {
@@ -856,6 +926,39 @@ func runC12(c *Ctx) error {
 		ed := c12NotE(c12InE("a", 2, 1, big.NewInt(int64(a))))
 		doGroup("not", 2, 1, true, ec, ed, nil, []string{"asis"}, nil,
 			c12Meta{code: 20, k: 2, n: 1, a: big.NewInt(int64(a)), b: big.NewInt(0)})
+	}
+	// ---- directed wide (> 64 bit) / and % folds: small and mid-size operands with
+	// non-zero remainders (right at baseline: both containers have their top bit
+	// clear), and operands with the container's top bit set (F6g at baseline)
+	{
+		r := c.rng.Fork()
+		wide := []int{65, 128}
+		if c.Thorough() {
+			wide = []int{65, 127, 128, 129, 130}
+		}
+		for _, n := range wide {
+			for k := 0; k < 2; k++ {
+				pairs := [][2]*big.Int{
+					{big.NewInt(100), big.NewInt(7)},
+					{new(big.Int).Add(c12Rand(r, 20), big.NewInt(1000)), new(big.Int).Add(c12Rand(r, 9), big.NewInt(3))},
+					{new(big.Int).Add(c12Rand(r, 30), c12Pow(29)), new(big.Int).Add(c12Rand(r, 12), big.NewInt(5))},
+					{new(big.Int).Add(c12Rand(r, 61), c12Pow(40)), new(big.Int).Add(c12Rand(r, 45), c12Pow(33))},
+					{new(big.Int).Add(c12Rand(r, 62), c12Pow(50)), new(big.Int).Add(c12Rand(r, 20), big.NewInt(11))},
+					{new(big.Int).Add(c12Pow(31), c12Rand(r, 30)), big.NewInt(7)},
+					{new(big.Int).Add(c12Pow(63), c12Rand(r, 62)), new(big.Int).Add(c12Rand(r, 40), big.NewInt(9))},
+				}
+				for pi, ab := range pairs {
+					for op := 3; op <= 4; op++ {
+						oa, ob := c12Opnd{ab[0], 0}, c12Opnd{ab[1], 0}
+						ec := c12BinE(op, c12Operand(k, n, oa.v, 0), c12Operand(k, n, ob.v, 0))
+						ed := c12BinE(op, c12InE("a", k, n, oa.v), c12InE("b", k, n, ob.v))
+						meta := c12Meta{code: op, k: k, n: n, a: oa.v, b: ob.v}
+						cons := []string{"asis", c12Consumers[1+(pi+op)%4]}
+						doGroup(c12OpNames[op], k, n, false, ec, ed, []c12Opnd{oa, ob}, cons, c12Rand(r, n-1), meta)
+					}
+				}
+			}
+		}
 	}
 	// ---- totality probes: operands of different widths of the same kind (each
 	// representable in its own type; the run-time variant of an arithmetic
